@@ -186,7 +186,7 @@ impl Prop for C03 {
         tier.pick(600, 3 * 3600)
     }
     fn mandatory(&self, _t: Tier) -> Vec<String> {
-        let mut v: Vec<String> = ["rk_sweep_file", "noise:id1B:len1B", "noise:id2B:len1B", "noise:id1B:len2B", "noise:id2B:len2B", "noise:id2B:len3B", "noise:id2B:len4B", "sst:rich", "dims_wrong"].iter().map(|s| s.to_string()).collect();
+        let mut v: Vec<String> = ["rk_sweep_file", "noise:id1B:len1B", "noise:id2B:len1B", "noise:id1B:len2B", "noise:id2B:len2B", "noise:id2B:len3B", "noise:id2B:len4B", "sst:rich", "dims_wrong", "string_at_length_limit"].iter().map(|s| s.to_string()).collect();
         for k in ["BrtCellBlank", "BrtCellRk:RkInt", "BrtCellRk:RkIntDiv100", "BrtCellRk:RkFloat", "BrtCellRk:RkFloatDiv100", "BrtCellReal", "BrtCellBool", "BrtCellError", "BrtCellSt", "BrtCellIsst", "BrtFmlaNum", "BrtFmlaString", "BrtFmlaBool", "BrtFmlaError"] {
             v.push(format!("rec:{}", k));
         }
@@ -234,6 +234,25 @@ impl Prop for C03 {
                             });
                         }
                     }
+                }
+            }
+            if i % 7 == 3 {
+                // strings at the 32767-character limit: their records are longer than 65536 bytes
+                if let Some(sh) = book.sheets.first_mut() {
+                    // directly below (or, at the last row, directly above) the existing cells: the
+                    // range is dense, the bounding box must stay small
+                    let (lo, hi) = (sh.cells.keys().map(|p| p.0).min().unwrap_or(0), sh.cells.keys().map(|p| p.0).max().unwrap_or(0));
+                    let r = if hi < 1_048_575 { hi + 1 } else { lo.saturating_sub(1) };
+                    let c0 = sh.cells.keys().map(|p| p.1).min().unwrap_or(0).min(16_000);
+                    for (c, n) in [32_767usize, 32_766, 32_763].iter().enumerate() {
+                        let c = c + c0 as usize;
+                        let unit = ["ab", "\u{e9}\u{65e5}"][c % 2];
+                        let n = *n;
+                        let mut s: String = format!("long{}@{}:", c, r);
+                        s.extend(unit.chars().cycle().take(n - s.chars().count()));
+                        sh.cells.insert((r, c as u32), MCell::v(Val::Str(s)));
+                    }
+                    out.feat("string_at_length_limit");
                 }
             }
             for k in 0..ctx.tier.pick(4, 6) {
